@@ -143,6 +143,119 @@ def r04_3(ctx, counts) -> RuleResult:
     return res
 
 
+def r04_5(ctx, counts) -> RuleResult:
+    """a binding power that instances override is not used as an operand's rbp"""
+    model = ctx.model
+    res = RuleResult(
+        'R04.5', 'INSTANCE-BINDING-POWER',
+        'A token class may change its own binding powers per instance (LookupOperatorToken sets '
+        'self.lbp = self.rbp = 0 when `?` follows `(` or `,`, so that a placeholder does not bind '
+        'to what precedes it). In such a class the nud and led methods pass constants to '
+        'parser.expression(): `expression(self.rbp)` would parse the key of a unary lookup with '
+        'rbp 0 in exactly those positions and swallow the rest of the argument list '
+        '(`(?a, ?b)` becomes `?(a, ?b)`, `concat(?a, "-", ?b)` "too few arguments").')
+    n = 0
+    for cls in sorted(model.all_classes(), key=lambda c: c.name):
+        methods = [f for f in cls.module.functions.values() if f.cls is cls]
+        overriding = [f for f in methods if any(
+            isinstance(x, (ast.Assign, ast.AugAssign)) and any(
+                isinstance(t, ast.Attribute) and isinstance(t.value, ast.Name)
+                and t.value.id == 'self' and t.attr in ('lbp', 'rbp')
+                for t0 in (x.targets if isinstance(x, ast.Assign) else [x.target])
+                for t in ast.walk(t0))
+            for x in walk_local(f.node))]
+        if not overriding:
+            continue
+        n += 1
+        bad = []
+        for f in methods:
+            if f.name not in ('nud', 'led'):
+                continue
+            for c in walk_local(f.node):
+                if isinstance(c, ast.Call) and isinstance(c.func, ast.Attribute) \
+                        and c.func.attr == 'expression':
+                    args = list(c.args) + [k.value for k in c.keywords]
+                    for a in args:
+                        if any(isinstance(y, ast.Attribute) and isinstance(y.value, ast.Name)
+                               and y.value.id == 'self' and y.attr in ('lbp', 'rbp')
+                               for y in ast.walk(a)):
+                            bad.append((f, c))
+        res.instances.append(f'{cls.name}: binding powers overridden per instance in '
+                             f'{[f.name for f in overriding]}; expression() calls with a '
+                             f'self.lbp/rbp argument: {len(bad)}')
+        if not bad:
+            res.ok()
+        for f, c in bad:
+            res.fail(finding('R04.5', f, c, f'{cls.name}.{f.name}: {stmt_text(c)[:40]}',
+                             f'`{stmt_text(c)[:50]}` takes the right binding power from the '
+                             f'instance, which {overriding[0].name}() may have set to 0: the '
+                             f'operand then extends over every following operator and comma'))
+    counts['classes_with_instance_binding_powers'] = n
+    if n < 1:
+        raise AnalysisError('no token class overrides its binding powers per instance (the '
+                            'LookupOperatorToken idiom vanished)')
+    return res
+
+
+def r04_6(ctx, counts) -> RuleResult:
+    """the source of a token is a function of the token tree"""
+    model = ctx.model
+    res = RuleResult(
+        'R04.6', 'SOURCE-FROM-THE-TREE',
+        'tree -> source -> parse is a round trip only if `source` is computed from the token '
+        'tree. Parser.parse() overwrites the per-parse state of the parser (the attributes it '
+        'assigns: source, tokens, token, next_token, next_match, ...) on every call, also on '
+        'failing ones, and a tree outlives the parse that built it. No `source` property of a '
+        'token class (nor a method of the class it calls) reads one of those attributes through '
+        'self.parser. (`1.5 + @a` unparsed as `str + @a` after the same parser had parsed '
+        'another expression, in a seeded change that sliced parser.source by the token span.)')
+    tdop = model.module('elementpath.tdop')
+    parser_cls = tdop.classes.get('Parser')
+    if parser_cls is None or 'parse' not in parser_cls.methods:
+        raise AnalysisError('tdop.Parser.parse vanished')
+    per_parse = set()
+    for x in ast.walk(parser_cls.methods['parse'].node):
+        if isinstance(x, (ast.Assign, ast.AugAssign)):
+            for t0 in (x.targets if isinstance(x, ast.Assign) else [x.target]):
+                for t in ast.walk(t0):
+                    if isinstance(t, ast.Attribute) and isinstance(t.value, ast.Name) \
+                            and t.value.id == 'self':
+                        per_parse.add(t.attr)
+    if 'source' not in per_parse or len(per_parse) < 3:
+        raise AnalysisError(f'Parser.parse: per-parse attributes located: {sorted(per_parse)}')
+    token_cls = tdop.classes.get('Token')
+    n = 0
+    for cls in sorted(model.all_classes(), key=lambda c: (c.module.name, c.name)):
+        if cls is not token_cls and not cls.is_subclass_of(token_cls):
+            continue
+        methods = {f.name: f for f in cls.module.functions.values() if f.cls is cls}
+        src = methods.get('source')
+        if src is None:
+            continue
+        n += 1
+        scope = [src]
+        for c in walk_local(src.node):
+            if isinstance(c, ast.Attribute) and isinstance(c.value, ast.Name) \
+                    and c.value.id == 'self' and c.attr in methods and methods[c.attr] not in scope:
+                scope.append(methods[c.attr])
+        bad = [(g, y) for g in scope for y in walk_local(g.node)
+               if isinstance(y, ast.Attribute) and y.attr in per_parse
+               and stmt_text(y.value) == 'self.parser']
+        res.instances.append(f'{cls.module.name}:{cls.name}.source (+{len(scope) - 1} callees): '
+                             f'reads of per-parse parser state: {len(bad)}')
+        if not bad:
+            res.ok()
+        for g, y in bad:
+            res.fail(finding('R04.6', g, y, f'{cls.name}.source reads parser.{y.attr}',
+                             f'`{stmt_text(y)}` is per-parse state of the parser (assigned by '
+                             f'Parser.parse()): the source of a token changes when the parser '
+                             f'that built it parses, or fails to parse, another expression'))
+    counts['source_properties'] = n
+    if n < 5:
+        raise AnalysisError(f'source properties of token classes located: {n} < 5')
+    return res
+
+
 def run(ctx) -> dict:
     reg: RegModel = ctx.reg
     model = ctx.model
@@ -387,7 +500,7 @@ def run(ctx) -> dict:
                     f'{reg.statements_interpreted} statements, {reg.decorators_interpreted} '
                     f'decorator applications, {len(reg.semantics_checked)} REG-SEMANTICS facts')
     return {
-        'results': [r1, r2, r04_3(ctx, counts)],
+        'results': [r1, r2, r04_3(ctx, counts), r04_5(ctx, counts), r04_6(ctx, counts)],
         'counts': counts,
         'explanation':
             'The binding powers, led/nud bodies and recursive expression() right binding powers '
